@@ -430,10 +430,14 @@ Proof. vm_compute. repeat split. Qed.
 
 (* native integer -> term -> native integer *)
 Theorem int_roundtrip digits_of fixed ty z :
-  in_ity ty z = true -> ((z < 0)%Z -> ity_signed ty = true) ->
+  in_ity ty z = true ->
   try_int fixed ty (native_term digits_of fixed (NInt ty z)) = inr z.
 Proof.
-  intros Hi Hs. unfold native_term, try_int. cbn [lexical_form datatype lexical_native datatype_native].
+  intros Hi.
+  assert (Hs : (z < 0)%Z -> ity_signed ty = true).
+  { destruct ty; try reflexivity. unfold in_ity in Hi. simpl in Hi.
+    apply andb_true_iff in Hi as [H1 _]. apply Z.leb_le in H1. lia. }
+  unfold native_term, try_int. cbn [lexical_form datatype lexical_native datatype_native].
   assert (Hwl : in_list xsd_integer (whitelist ty) = true) by (destruct ty; vm_compute; reflexivity).
   rewrite Hwl.
   unfold in_ity in Hi. apply andb_true_iff in Hi as [H1 H2]. apply Z.leb_le in H1, H2.
@@ -613,8 +617,7 @@ Proof.
   - assert (Hz : all_digits (zeros (Z.to_nat (- exp)) ++ ds) = true)
       by (rewrite all_digits_app, all_digits_zeros; exact Hd).
     repeat split.
-    + change ([48; 46] ++ zeros (Z.to_nat (- exp)) ++ ds) with ([48] ++ 46 :: (zeros (Z.to_nat (- exp)) ++ ds)).
-      apply numeric_dot; auto. discriminate.
+    + apply (numeric_dot [48] (zeros (Z.to_nat (- exp)) ++ ds)); auto. discriminate.
     + exists 48, (46 :: zeros (Z.to_nat (- exp)) ++ ds). split; reflexivity.
     + simpl. apply Hfc. exact Hz.
   - destruct (Z.ltb_spec exp (Z.of_nat (length ds))) as [Hin|Hout].
@@ -647,7 +650,7 @@ Lemma signed_numeric_double neg body :
 Proof.
   intros Hn (c & r & -> & Hc). unfold xsd_double_lex.
   destruct neg; cbn [sign_str app].
-  - cbn [strip_sign is_sign N.eqb orb]. simpl (45 =? 43). cbn [orb]. now rewrite Hn.
+  - change (strip_sign (45 :: c :: r)) with (c :: r). now rewrite Hn.
   - rewrite (strip_sign_digit _ _ Hc), Hn. reflexivity.
 Qed.
 
@@ -690,7 +693,7 @@ Lemma parse_float_signed_numeric neg body :
 Proof.
   intros Hn (c & r & -> & Hc). rewrite <- rust_number_ok_eq in Hn.
   destruct neg; cbn [sign_str app rust_parse_float].
-  - cbn [is_sign N.eqb orb]. simpl (45 =? 43). cbn [orb is_nil]. now rewrite Hn.
+  - change (is_sign 45) with true. change (45 =? 45) with true. cbn iota. cbn [is_nil]. now rewrite Hn.
   - rewrite (digit_not_sign _ Hc). cbn [is_nil]. rewrite Hn.
     apply is_digit_range in Hc. destruct (N.eqb_spec c 45); [lia | reflexivity].
 Qed.
@@ -832,8 +835,8 @@ Proof.
         rewrite (split_exp_noe _ (decimal_chars_no_e _ Hbody)) in Ok. now rewrite andb_true_r in Ok.
       - unfold xsd_double_lex. now rewrite Ok. }
     rewrite Hlex. repeat split; try discriminate.
-    + injection H0 as <-. exact Ok.
-    + injection H0 as <-. reflexivity.
+    + exact Ok.
+    + injection H as <-. reflexivity.
 Qed.
 
 (* a term that is not a literal, or whose datatype is not one of the three, is refused *)
@@ -879,7 +882,7 @@ Proof.
     { unfold all_digits. apply forallb_forall. intros x Hx. rewrite Forall_forall in HF.
       now apply is_digit_range, HF. }
     apply digits1_iff.
-    destruct Hsg as [->|[->|->]]; cbn [app strip_sign is_sign N.eqb orb]; auto.
+    destruct Hsg as [-> | [-> | ->] ]; cbn [app strip_sign is_sign N.eqb orb]; auto.
     destruct ds as [|c r]; [congruence|]. simpl in Hd. apply andb_true_iff in Hd as [Hc Hr].
     rewrite (strip_sign_digit _ _ Hc). split; [discriminate|]. simpl. now rewrite Hc, Hr.
 Qed.
